@@ -100,7 +100,7 @@ func (g *tgen) readOp(rt *rapid.T, db *model.DB, filterPct int) model.Op {
 	return normOp(op)
 }
 
-const ruleC02 = "rapid state machine: generated schema (hash+range, S/N/B keys, 0-2 global/local indexes) populated by a write history (Put/Update/Delete over a key pool with 1-3 partitions and prefix-sharing keys), interleaved with Query (hash equality alone or with = < <= > >= BETWEEN begins_with on the sort key, optional generated filter, both directions) and Scan (optional filter) on the table and on every index, on both SDK clients; result compared with the reference model as multiset (none missing, none extra, each once), Count == len(Items), and order validity by the queried schema's sort key. Non-trivial = read returning >= 2 items while at least one stored item is excluded; distinct = distinct hash of (state, read)."
+const ruleC02 = "rapid state machine: generated schema (hash+range, S/N/B keys, 0-2 global/local indexes) populated by a write history (Put/Update/Delete over a key pool with 1-3 partitions and prefix-sharing keys), with UpdateTable index creation on the populated table, interleaved with Query (hash equality alone or with = < <= > >= BETWEEN begins_with on the sort key, optional generated filter, both directions) and Scan (optional filter) on the table and on every index, on both SDK clients; result compared with the reference model as multiset (none missing, none extra, each once), Count == len(Items), and order validity by the queried schema's sort key. Non-trivial = read returning >= 2 items while at least one stored item is excluded; distinct = distinct hash of (state, read)."
 
 // TestC02 decides property C02.
 func TestC02(t *testing.T) {
@@ -116,7 +116,7 @@ func TestC02(t *testing.T) {
 				failCase(rt, "C02", "history:C02", f, w.asCase())
 			}
 		}
-		reads := 0
+		reads, lateIdx := 0, 0
 		defer func() {
 			st.Step(w.steps)
 			if reads == 0 {
@@ -141,6 +141,23 @@ func TestC02(t *testing.T) {
 			"delete": func(rt *rapid.T) {
 				_, _, f := w.do(model.Op{Kind: "Delete", Table: s.Table, Key: g.key(rt)})
 				fail(f)
+			},
+			"addIndex": func(rt *rapid.T) {
+				// an index created on the populated table is read like any other
+				if lateIdx >= 2 || rapid.IntRange(0, 2).Draw(rt, "reallyAddIndex") != 0 {
+					return
+				}
+				op, ok := g.lateIndexOp(rt, w.m, lateIdx+1)
+				if !ok {
+					return
+				}
+				lateIdx++
+				_, status, f := w.do(op)
+				fail(f)
+				g.adoptLateIndex(rt, w.m, op)
+				if status == stepDone {
+					st.Class("index-added-to-populated-table")
+				}
 			},
 			"read": func(rt *rapid.T) {
 				op := g.readOp(rt, w.m, 50)
